@@ -59,6 +59,7 @@ structure DState where
   objs : Array Nat := #[]
   vt : Nat → Option Nat := fun _ => none
   vtn : Nat := 0
+  dom : Dom Float := ⟨0, 0, 0⟩
 
 def grid (n : Nat) (f : Nat → Nat → String) : String :=
   " ".intercalate ((List.range n).flatMap fun i => (List.range n).map fun j => f i j)
@@ -191,6 +192,30 @@ def step (s : DState) (toks : List String) : DState × String :=
             else omegaKoyamaShipped N (fun t => B[t-1]!) (fun t => A[t-1]!)
           (s, fl (k.map f).toList)
       | _ => (s, "bad-op")
+  -- ---------------- C07 / C08 Domain
+  | ["dom.new", L, dr, dk] =>
+      let o : String → Option Float := fun t => if t = "N" then none else some (hexToFloat t)
+      match Dom.construct L.toNat! (o dr) (o dk) with
+      | .ok d => ({ s with dom := d }, "ok")
+      | .error e => (s, errTok e)
+  | ["dom.set", "dr", v] => ({ s with dom := s.dom.step (.setDr (hexToFloat v)) }, "ok")
+  | ["dom.set", "dk", v] => ({ s with dom := s.dom.step (.setDk (hexToFloat v)) }, "ok")
+  | ["dom.set", "length", n] => ({ s with dom := s.dom.step (.setLength n.toNat!) }, "ok")
+  | ["dom.obs"] =>
+      let d := s.dom
+      (s, s!"{d.length} {floatToHex d.dr} {floatToHex d.dk} r {fl d.r.toList} k {fl d.k.toList}")
+  | ["dom.coef"] =>
+      let d := s.dom
+      (s, s!"c2 {fl ((List.range d.length).map d.c2)} c3 {fl ((List.range d.length).map d.c3)}")
+  | "dom.tf" :: xs => (s, fl (s.dom.toFourier (hexs xs)).toList)
+  | "dom.tr" :: xs => (s, fl (s.dom.toReal (hexs xs)).toList)
+  | "dst2" :: xs => let x := hexs xs; (s, fl (dst2 x.size x).toList)
+  | "dst3" :: xs => let x := hexs xs; (s, fl (dst3 x.size x).toList)
+  | "dom.ma" :: dir :: L :: n :: sp :: xs =>
+      let A : MA Float := ⟨L.toNat!, n.toNat!, spaceOf sp, hexs xs⟩
+      match (if dir = "F" then s.dom.maToFourier A else s.dom.maToReal A) with
+      | .ok B => (s, s!"{spaceTok B.space} {fl B.data.toList}")
+      | .error e => (s, errTok e)
   | _ => (s, "bad-op")
 
 partial def loop (h : IO.FS.Stream) (out : IO.FS.Stream) (s : DState) : IO Unit := do
